@@ -315,7 +315,7 @@ static void sincos_deg(double lat, double& s, double& c) { Q qs, qc; Lat L = pro
 struct EllP { const char* name; double a, f; bool quick; };
 static const EllP ELLS[] = {
   {"WGS84", WGS84_A, WGS84_F, true}, {"sphere", WGS84_A, 0.0, true}, {"f=+0.1", WGS84_A, 0.1, false}, {"f=-0.1", WGS84_A, -0.1, false},
-  {"f=+0.5,a=1", 1.0, 0.5, false}, {"f=-0.2", WGS84_A, -0.2, false},
+  {"f=+0.5,a=1", 1.0, 0.5, true}, {"f=-0.2", WGS84_A, -0.2, false},
 };
 struct Pair { double l1, l2; };
 
@@ -328,7 +328,7 @@ int main(int argc, char** argv) {
   const std::vector<double> LATBASE = {-90, -89.999999999, -89, -60, -45, -1, -1e-9, 0, 1e-9, 1, 30, 45, 60, 89, 89.999999999, 90};
   Axes AX; AX.dlons = {0, 1e-9, 30, 90, 179, 180, -180, -30, -179}; AX.lon0s = {0, -170};
   if (!T) AX.dlons = {0, 1e-9, 30, 179, 180, -180, -30};
-  ctx.bound("ellipsoids", T ? "WGS84, sphere, f=+0.1, f=-0.1, (a=1,f=0.5), f=-0.2" : "WGS84, sphere");
+  ctx.bound("ellipsoids", T ? "WGS84, sphere, f=+0.1, f=-0.1, (a=1,f=0.5), f=-0.2" : "WGS84, sphere, (a=1,f=0.5)");
   ctx.bound("scales", "k0/k1 in {1, 0.994}; SetScale(lat, k) for lat in the latitude alphabet, k in {1, 0.9}");
   ctx.bound("parallels", "single {-90,-60,-1e-9,0,1e-9,45,89.999,90}; pairs {(30,60),(45,45+1e-9),(45,45+1e-5),(-30,30),(0,1e-9),(89,89.9),(-60,-20)} in both orders; constructor forms: 1-parallel, 2-parallel, sin/cos");
   ctx.bound("lat", "{+-90, +-(90-1e-9), +-89, -60, -45, -1, +-1e-9, 0, 1, 30, 45, 60} + each standard parallel, the origin latitude and their +-1e-9 neighbours");
